@@ -33,6 +33,11 @@ def instances(tier, rng):
                 extra.append({"mode": "node", "ign": [v]})
             extra.append({"starts": [rng.choice(u["nodes"])]})
             extra.append({"ends": [rng.choice(u["nodes"])]})
+            if cls == "kMinPathErrorCycles":
+                # elements ignored by a percentile of their values (Problems!PctIgnored): which elements count is derived from the data
+                extra.append({"ignpct": rng.choice([25, 50, 75, 100])})
+                extra.append({"ignpct": rng.choice([0, 50, 75])})
+                extra.append({"mode": "node", "ignpct": rng.choice([25, 50, 75, 100])})
             if cls == "kMinPathError":
                 extra.append({"sws": sorted(set(u["pweights"])) + [1]})
                 extra.append({"plr": [[0, 2], [3, 20]], "plf": [[1, 1], [2, 1]]})
@@ -61,6 +66,21 @@ def instances(tier, rng):
                         r["grp"] = g
                         r["cmp"] = [num, den]
                         insts.append(r)
+    # the walk model on ACYCLIC inputs with small fractional weights (x 1/10: k * max weight < 1, as with normalised abundances):
+    # nothing about cycles is involved, the scaled model must do what the integer model does
+    for u0 in C.spread(dag, 10 if quick else 60):
+        for u in (u0, F.perturb(u0, rng, nmax=1)):
+            for kk in ("none", "w", "w+1"):          # (this order: the second pass finds the k=None sibling by position)
+                g += 1
+                for wt, num, den in (("int", 1, 1), ("float", 1, 1), ("float", 1, 10)):
+                    r = C.base(u, "kMinPathErrorCycles")
+                    r["kk"] = kk
+                    if kk == "none":
+                        r["k_none"] = True
+                    r["wt"], r["num"], r["den"] = wt, num, den
+                    r["grp"] = g
+                    r["cmp"] = [num, den]
+                    insts.append(r)
     return C.with_ids(insts)
 
 
@@ -165,13 +185,15 @@ def run(tier, seed):
                 res.count_class("solved_cyclic")
             if r["plr"]:
                 res.count_class("solved_with_length_factors")
+            if r.get("ignpct", -1) >= 0:
+                res.count_class("solved_with_percentile_ignore")
     res.samples = [P.brief(r) for r in recs[:2] + recs[-1:]]
     res.rule = ("planted / perturbed integer weights on TLC-enumerated DAGs / cyclic digraphs; k in {None, c, c+1} where c is the "
                 "covering number computed by TLC's Cover adversary; features ignore / error_scaling / starts / ends / given weights / "
                 "length factors / constraint; Fit adversary with slacks searches for a strictly smaller total slack")
     P.attribute_presolve(res, known)
     return res.finish(known, require_classes=["solved", "solved_with_error_scaling", "solved_node_mode", "solved_cyclic",
-                                              "adversary_optimality_runs"])
+                                              "adversary_optimality_runs", "solved_with_percentile_ignore"])
 
 
 def replay(path, seed):
